@@ -261,6 +261,16 @@ def check_lifecycle(cname, ops):
     return out
 
 
+def big_sequences(n):
+    front = [(float(i), float(n - i), True) for i in range(n)]
+    return {
+        "ascending": front + [(float(i) + 0.5, float(n - i) + 0.5, True) for i in range(0, n, 3)] + front[::5],
+        "descending": front[::-1] + [(float(i), float(n - i), False) for i in range(0, n, 4)],
+        "interleaved": [front[(i * 7) % n] for i in range(n)] + [(float(n // 2) - 0.5, float(n - n // 2) - 0.5, True)] + front[:n // 2],
+        "worst-first": [(float(i) + 1.0, float(n - i) + 1.0, True) for i in range(n)] + front,
+    }
+
+
 def bfs(cname, aname, col):
     alpha = ALPHA[aname]
     seen = {()}
@@ -326,6 +336,18 @@ def _shard(shard, col: Collector):
             for key, msg in check_lifecycle(cname, ops):
                 col.violation(key, "life", msg, {"comparator": cname, "ops": ops})
         col.sample({"kind": "life cycle of one archive", "comparator": cname, "operations": [list(map(str, LIFE_OPS[first])), "truncate 1", "add"], "depth": depth}, 1)
+    elif kind == "big":
+        # archives far larger than the reachable states of the small alphabets: long fronts offered in three orders, with
+        # dominated, duplicated and dominating points mixed in
+        _, cname, n = shard
+        seqs = big_sequences(n)
+        for label, seq in seqs.items():
+            col.case()
+            col.count("large_archive_histories")
+            col.nontrivial(("big", cname, n, label))
+            for key, msg in check_history(cname, seq):
+                col.violation(key + ":large-archive", "big", "n=%d order=%s: %s" % (n, label, msg[:300]), {"comparator": cname, "n": n, "order": label})
+        col.sample({"kind": "large archives", "front_size": n, "orders": list(seqs)}, 1)
     elif kind == "default":
         # default archives in one process: histories over 2 objectives first, then over 3 (and, in another process, 3 then 1/2)
         order = shard[1]
@@ -374,6 +396,8 @@ def replay(sub, case):
         return check_two_archives(case["c1"], case["c2"], [t(x) for x in case["seq1"]], [t(x) for x in case["seq2"]])
     if sub == "hist":
         return check_history(case["comparator"], [t(s) for s in case["seq"]])
+    if sub == "big":
+        return check_history(case["comparator"], big_sequences(case["n"])[case["order"]])
     if sub == "life":
         ops = [(op, (tuple(tuple(c) for c in arg) if op in ("many", "samevec") else (tuple(arg) if op == "add" else arg))) for op, arg in case["ops"]]
         return check_lifecycle(case["comparator"], ops)
@@ -396,6 +420,9 @@ def run(tier, seed):
     for cname in ("pareto", "eps01", "default"):
         for first in range(len(LIFE_OPS)):
             shards.append(("life", cname, first, 4 if (tier == "thorough" or cname == "pareto") else 3))
+    for cname in ("pareto", "eps01", "default"):
+        for n in (31, 32, 33, 63, 64, 65, 100, 128, 129, 256, 257) + ((1000,) if tier == "thorough" else ()):
+            shards.append(("big", cname, n))
     shards += [("default", ("V3x2F", "B3")), ("default", ("B3", "V3x2F")), ("default", ("NEAR", "T3"))]
     for c1, c2 in (("pareto", "pareto"), ("pareto", "eps01"), ("eps01", "eps05"), ("eps05", "pareto")):
         for aname in ("V3x2F", "B3"):
